@@ -11,6 +11,7 @@ import (
 	"encoding/pem"
 	"fmt"
 	"os"
+	"strings"
 	"time"
 
 	jose "github.com/go-jose/go-jose/v3"
@@ -62,9 +63,42 @@ type RegSpec struct {
 	Get, Set  string
 	FixedKey  bool // fixed-width EC coordinates in the COSE key
 	Cred      *KeyPair
+	Var       int // variant of a deviation that has several (0-based; < 0 = PRNG choice)
 }
 
 func (s *RegSpec) d(name string) bool { return s.Dev[name] }
+
+// maxVariants is an upper bound on the number of variants any single deviation has
+const maxVariants = 12
+
+func variant[T any](r *RNG, v int, xs []T) T {
+	if v >= 0 {
+		return xs[v%len(xs)]
+	}
+	return xs[r.Intn(len(xs))]
+}
+
+// nonCanonicalB64 returns spellings other than the canonical one that Go's lenient RawURLEncoding decoder maps to the same bytes
+func nonCanonicalB64(canon string) []string {
+	const alpha = "ABCDEFGHIJKLMNOPQRSTUVWXYZabcdefghijklmnopqrstuvwxyz0123456789-_"
+	out := []string{canon + "\n", canon + "\r\n", "\n" + canon, canon + "\r"}
+	if len(canon) > 2 {
+		out = append(out, canon[:len(canon)/2]+"\r\n"+canon[len(canon)/2:])
+	}
+	if n := len(canon) % 4; (n == 2 || n == 3) && len(canon) > 0 {
+		last := strings.IndexByte(alpha, canon[len(canon)-1])
+		free := 4 // unused low bits: 4 when two characters remain, 2 when three
+		if n == 3 {
+			free = 2
+		}
+		for d := 1; d < 1<<uint(free); d += 3 {
+			if alt := last | d; alt != last && alt < 64 && alt>>uint(free) == last>>uint(free) {
+				out = append(out, canon[:len(canon)-1]+string(alpha[alt]))
+			}
+		}
+	}
+	return out
+}
 
 // RegBuilt is the built ceremony in pieces, so that later mutations can re-assemble it.
 type RegBuilt struct {
@@ -146,7 +180,7 @@ func newRegSpec(r *RNG, format string, credAlg int) *RegSpec {
 	origin := pick(r, honestOrigins)
 	s := &RegSpec{Format: format, CredAlg: credAlg, Origin: origin, Client: origin, Challenge: r.Bytes(16 + r.Intn(32)),
 		UserID: r.Bytes(1 + r.Intn(16)), CredID: r.Bytes(pick(r, []int{1, 16, 16, 32, 32, 64, 200})), AAGUID: r.Bytes(16),
-		Flags: 0x41, Counter: uint32(r.U64() >> uint(r.Intn(33))), Algs: []int{credAlg}, Dev: map[string]bool{}, FixedKey: true}
+		Flags: 0x41, Counter: uint32(r.U64() >> uint(r.Intn(33))), Algs: []int{credAlg}, Dev: map[string]bool{}, FixedKey: true, Var: -1}
 	if r.P(1, 40) {
 		s.CredID = r.Bytes(pick(r, []int{0, 255, 256, 1023}))
 	}
@@ -260,14 +294,14 @@ func buildRegistration(r *RNG, s *RegSpec) *RegBuilt {
 	// client data
 	cd := ClientDataSpec{Type: "webauthn.create", Challenge: b64u(s.Challenge), Origin: s.Client, Extra: s.CDExtra, Shuffle: r.P(1, 2)}
 	if s.d("cd.type") {
-		cd.Type = pick(r, []string{"webauthn.get", "", "webauthn.create ", "WEBAUTHN.CREATE"})
+		cd.Type = variant(r, s.Var, []string{"webauthn.get", "", "webauthn.create ", "WEBAUTHN.CREATE", "webauthn.creat", "create"})
 	}
 	if s.d("cd.challenge") {
-		cd.Challenge = pick(r, []string{b64u(append(append([]byte{}, s.Challenge...), 0)), stdB64(s.Challenge) + "=", "", b64u(s.Challenge[1:]), b64u(s.Challenge) + "A"})
+		cd.Challenge = variant(r, s.Var, append([]string{b64u(append(append([]byte{}, s.Challenge...), 0)), stdB64(s.Challenge) + "=", "", b64u(s.Challenge[1:]), b64u(s.Challenge) + "A", hx(s.Challenge)}, nonCanonicalB64(b64u(s.Challenge))...))
 	}
 	if s.d("cd.origin") {
 		h := hostOf(s.Origin)
-		cd.Origin = pick(r, []string{"https://evil.example", "https://evil" + h, "https://" + h + ".evil.com", "https://evil.com/" + h, "https://" + h + "@evil.com", "", "https://evil.com?" + h, "https://evil.com#" + h, "null"})
+		cd.Origin = variant(r, s.Var, []string{"https://evil.example", "https://evil" + h, "https://" + h + ".evil.com", "https://evil.com/" + h, "https://" + h + "@evil.com", "", "https://evil.com?" + h, "https://evil.com#" + h, "null", "https://www.not" + h, "https://x" + h + ":443"})
 	}
 	b.CDJ = cd.JSON(r)
 	if s.d("cd.malformed") {
@@ -284,7 +318,7 @@ func buildRegistration(r *RNG, s *RegSpec) *RegBuilt {
 		ad.AAGUID = make([]byte, 16)
 	}
 	if s.d("ad.rpIdHash") {
-		ad.RPIDHash = pick(r, [][]byte{sha([]byte(s.Origin)), sha([]byte("evil.example")), sha([]byte(hostOf(s.Origin) + ".")), r.Bytes(32)})
+		ad.RPIDHash = variant(r, s.Var, [][]byte{sha([]byte(s.Origin)), sha([]byte("evil.example")), sha([]byte(hostOf(s.Origin) + ".")), r.Bytes(32), sha([]byte(strings.ToUpper(hostOf(s.Origin)) + "x")), make([]byte, 32)})
 	}
 	if s.d("ad.noUP") {
 		ad.Flags &^= 0x01
@@ -297,7 +331,7 @@ func buildRegistration(r *RNG, s *RegSpec) *RegBuilt {
 	}
 	b.AuthData = ad.Bytes()
 	if s.d("rawId.other") {
-		b.RawID = pick(r, [][]byte{append(append([]byte{}, s.CredID...), 0), r.Bytes(len(s.CredID)), []byte("victim-cred"), {}})
+		b.RawID = variant(r, s.Var, [][]byte{append(append([]byte{}, s.CredID...), 0), r.Bytes(len(s.CredID)), []byte("victim-cred"), {}, s.CredID[:len(s.CredID)/2]})
 		if string(b.RawID) == string(s.CredID) {
 			b.RawID = append(b.RawID, 1)
 		}
@@ -384,10 +418,20 @@ func buildRegistration(r *RNG, s *RegSpec) *RegBuilt {
 			cs.Subject.Organization = nil
 		}
 		if s.d("x5c.badOU") {
-			cs.Subject.OrganizationalUnit = pick(r, [][]string{nil, {"Authenticator Attestation "}, {"authenticator attestation"}, {"Authenticator", "Attestation"}, {"Other"}})
+			cs.Subject.OrganizationalUnit = variant(r, s.Var, [][]string{nil, {"Authenticator Attestation "}, {"authenticator attestation"}, {"Authenticator", "Attestation"}, {"Other"}, {""}, {"Authenticator Attestation", "x"}})
 		}
 		if s.d("x5c.noCN") {
 			cs.Subject.CommonName = ""
+		}
+		if s.d("x5c.emptyC") {
+			cs.Subject.Country = variant(r, s.Var, [][]string{{""}, {"", ""}})
+		}
+		if s.d("x5c.emptyO") {
+			cs.Subject.Organization = variant(r, s.Var, [][]string{{""}, {"", ""}})
+		}
+		if s.d("x5c.emptyCN") {
+			cs.Subject.CommonName = ""
+			cs.Subject.ExtraNames = []pkix.AttributeTypeAndValue{{Type: asn1.ObjectIdentifier{2, 5, 4, 3}, Value: ""}}
 		}
 		der := makeCert(att.Public(), cs)
 		chain := [][]byte{der}
